@@ -42,6 +42,18 @@ fn judge(obs: &Obs, what: &str, rep: &mut Report, d: &dyn Fn() -> J) {
         rep.violations.push(viol("C20", format!("C20 wedge {}", what), format!("run_on exceeded its operation budget ({} transport operations for {} input bytes, {} reads at end of stream)", obs.world.nops, obs.world.input.len(), obs.world.eof_reads), d()));
         return;
     }
+    // COM_QUIT ends the conversation: a server that goes back to reading after it has taken the QUIT
+    // waits for a client that has nothing more to say - and a client that keeps its socket open until
+    // the server hangs up (connection pools and proxies do) waits for the server: a wedge
+    if let Some(q) = obs.kinds.iter().position(|k| *k == wire::Kind::Quit) {
+        if let Some(&(quit_end, _)) = obs.ends.get(q - 1) {
+            if let Some(r) = obs.world.read_log.iter().find(|r| r.pos >= quit_end) {
+                rep.violations.push(viol("C20", format!("C20 read-after-quit {}", what), format!("the server called read() at input offset {} although the COM_QUIT that ends at offset {} had been handed over: it waits for a client that is waiting for it", r.pos, quit_end), d()));
+                return;
+            }
+            rep.counters.inc("conversations_ended_by_quit_without_a_further_read");
+        }
+    }
     let out = obs.output();
     // once the client has asked for TLS and the server offers it, everything after the greeting is
     // TLS records, not MySQL packets
@@ -977,6 +989,53 @@ pub fn run(ctx: &Ctx) -> Report {
         });
         rep.merge(r);
     }
+
+    // ---- conversations that a client ends with COM_QUIT and then keeps its socket open until the
+    //      server hangs up (pools and proxies do): QUIT alone, behind commands in the same read, in
+    //      lock-step, with or without commands behind it. After the QUIT the server does not read again.
+    let n = if ctx.miri { 3 } else { ctx.n(600, 10_000) };
+    let r = par_cases(ctx, "C20", "quit-and-wait", n, |rng, i, rep| {
+        let mut cmds = Vec::new();
+        let mut scripts = Vec::new();
+        for k in 0..rng.below(4) {
+            match rng.below(3) {
+                0 => cmds.push(Cmd::ping()),
+                1 => {
+                    cmds.push(Cmd::query(format!("q{}", k).as_bytes()));
+                    scripts.push(Script::Q(QProg::completed(k, 0)));
+                }
+                _ => {
+                    cmds.push(Cmd::prepare(b"p"));
+                    scripts.push(Script::PrepOk { id: k as u32, params: vec![], cols: vec![] });
+                }
+            }
+        }
+        cmds.push(Cmd::quit().seq(if rng.bool() { 0 } else { rng.below(256) as u8 }));
+        if rng.chance(1, 4) {
+            cmds.push(Cmd::ping());
+        }
+        let mut case = Case::new(cmds, scripts);
+        match i % 3 {
+            0 => {}
+            1 => case.arrival = Arrival::Pipelined(1),
+            _ => {
+                let (input, _) = case.input();
+                let sk = *rng.pick(&[SchedKind::OneByte, SchedKind::HeaderCuts, SchedKind::Random, SchedKind::Boundaries]);
+                case.sched = make_sched(rng, sk, &input);
+            }
+        }
+        let obs = run_case(&case);
+        rep.evaluations += 1;
+        let d = || J::obj().set("commands", kinds_summary(&case.cmds)).set("arrival", format!("{:?}", case.arrival)).set("reads", obs.world.read_log.len()).set("outcome", obs.outcome.describe());
+        if i < 2 {
+            rep.sample(d());
+        }
+        judge(&obs, "quit-and-wait", rep, &d);
+        if !matches!(obs.outcome, Outcome::Ok | Outcome::Panic { .. }) {
+            rep.violations.push(viol("C20", "C20 quit-not-a-clean-end".into(), format!("a well-formed conversation ended by COM_QUIT made run_on return {}", obs.outcome.describe()), d()));
+        }
+    });
+    rep.merge(r);
 
     // ---- (c) random bytes
     let n = if ctx.miri { 6 } else { ctx.n(20_000, 2_000_000) };
